@@ -152,6 +152,9 @@ func checkC04(w *World, r *Report) {
 	r.Rule("R04.21", "whether a string is accepted depends on the string and the prefix map alone: the compilers keep no package-level state written while compiling (no memo of compiled expressions, which would skip the prefix lookup for a text seen before) — same analysis as R06.3", 3)
 	r.guard("R04.21", func() { c06GlobalsRule(w, r, "R04.21") })
 
+	r.Rule("R04.22", "every character the expression lexers see has been decoded: each exit of CommonLex.Next and of the look-ahead reader next() returns the pushed-back character, a constant (EOF/ERR), or the rune utf8.DecodeRune produced — the latter only on a path where the (RuneError, size 1) result of an invalid encoding has been excluded; no byte of the input is handed out undecoded", 2)
+	r.guard("R04.22", func() { c04DecodedOnly(w, r) })
+
 	r.Rule("R04.10", "number tokens: the characters LexNum collects are a subset of XPath Number's alphabet {0-9 .}", 1)
 	r.guard("R04.10", func() {
 		f := w.Method("xpath", "CommonLex", "LexNum")
@@ -935,4 +938,72 @@ func c04LookupTable(w *World, r *Report, lookup *types.Func) {
 		}
 	}
 	r.Check(why == "", "R04.9", "LookupXpathFunction", f.Pos(), "found ⇔ in the table ∧ (¬custom ∨ allowed); else the checker, else (nil,false)", "the function lookup "+why)
+}
+
+// c04DecodedOnly (R04.22).
+func c04DecodedOnly(w *World, r *Report) {
+	for _, f := range []*ssa.Function{w.SSAFunc(w.Method("xpath", "CommonLex", "Next")), w.SSAFunc(w.Func("xpath", "next"))} {
+		if f == nil {
+			panic(undecided{"xpath.CommonLex.Next / xpath.next"})
+		}
+		sym := NewSym(w)
+		why := ""
+		n := 0
+		for _, row := range sym.retTable(f, 0) {
+			n++
+			v := row.val
+			switch x := v.(type) {
+			case *ssa.Const:
+				continue
+			case *ssa.UnOp:
+				// the pushed-back character
+				if fa, ok := x.X.(*ssa.FieldAddr); ok && x.Op == token.MUL {
+					st := fa.X.Type().Underlying().(*types.Pointer).Elem().Underlying().(*types.Struct)
+					if st.Field(fa.Field).Name() == "peek" {
+						continue
+					}
+				}
+			case *ssa.Convert:
+				// a single byte taken as it is: fine when the path has established that it is ASCII
+				if bt, ok := x.X.Type().Underlying().(*types.Basic); ok && bt.Kind() == types.Uint8 {
+					vals, ok := pcValuesWhen(row.cond, sym.Key(x.X, nil))
+					if ok && len(vals.minus(ISet{{0, 127}})) == 0 {
+						continue
+					}
+					why = "a byte is returned undecoded although it may be in " + vals.minus(ISet{{0, 127}}).String()
+					continue
+				}
+			case *ssa.Extract:
+				if c, ok := x.Tuple.(*ssa.Call); ok && x.Index == 0 && c.Call.StaticCallee() != nil && c.Call.StaticCallee().String() == "unicode/utf8.DecodeRune" {
+					// the invalid-encoding result is excluded on this path
+					classify := func(a *pcAtom) string {
+						bo, ok := a.v.(*ssa.BinOp)
+						if !ok {
+							return ""
+						}
+						for _, side := range []ssa.Value{bo.X, bo.Y} {
+							if e, ok := side.(*ssa.Extract); ok && e.Tuple == ssa.Value(c) {
+								if e.Index == 0 && a.subj != "" && a.set.equal(isetOf(0xFFFD)) {
+									return "runeerror"
+								}
+								if e.Index == 1 && a.subj != "" && a.set.equal(isetOf(1)) {
+									return "size1"
+								}
+							}
+						}
+						return ""
+					}
+					if msg := pcImplies(row.cond, classify, func(env map[string]bool) bool { return !(env["runeerror"] && env["size1"]) }); msg != "" {
+						why = "the result of DecodeRune is returned although it may be the (RuneError, 1) of an invalid encoding: " + msg
+					}
+					continue
+				}
+			}
+			why = "an exit returns `" + w.ExprNear(row.pos) + "`, which is neither the pushed-back character, a constant nor a decoded rune"
+		}
+		if n == 0 {
+			why = "no exits"
+		}
+		r.Check(why == "", "R04.22", f.Name()+" hands out decoded characters only", f.Pos(), "peek | EOF | ERR | DecodeRune result with the invalid-encoding case excluded", why+": a byte sequence that is not UTF-8 (e.g. a lone 0x80 inside a literal) is accepted as part of an expression")
+	}
 }
